@@ -113,11 +113,13 @@ func (t *Teamserver) Start() {
 	t.Server.Engine.POST("/:endpoint", func(context *gin.Context) {
 		var endpoint = context.Request.RequestURI[1:]
 
-		if len(t.Endpoints) > 0 {
-			for i := range t.Endpoints {
-				if t.Endpoints[i].Endpoint == endpoint {
-					t.Endpoints[i].Function(context)
-				}
+		t.EndpointsMtx.Lock()
+		var Endpoints = append([]*Endpoint(nil), t.Endpoints...)
+		t.EndpointsMtx.Unlock()
+
+		for i := range Endpoints {
+			if Endpoints[i].Endpoint == endpoint {
+				Endpoints[i].Function(context)
 			}
 		}
 	})
@@ -729,11 +731,29 @@ func (t *Teamserver) EventAgentMark(AgentID, Mark string) {
 	t.EventBroadcast("", pk)
 }
 
+// EventListenerErrorOnly tells the operators that a listener request failed, without touching
+// a running listener that happens to have the same name.
+func (t *Teamserver) EventListenerErrorOnly(ListenerName string, Error error) {
+	var pk = events.Listener.ListenerError("", ListenerName, Error)
+
+	t.EventBroadcast("", pk)
+}
+
 func (t *Teamserver) EventListenerError(ListenerName string, Error error) {
 	var pk = events.Listener.ListenerError("", ListenerName, Error)
 
 	t.EventAppend(pk)
 	t.EventBroadcast("", pk)
+
+	// a listener that failed to start is not running: it must neither stay in the listener
+	// list nor be restored from the database at the next start
+	t.ListenersMtx.Lock()
+	if t.listenerTake(ListenerName) != nil {
+		if err := t.DB.ListenerRemove(ListenerName); err != nil {
+			logger.Error("Failed to remove listener: ", ListenerName)
+		}
+	}
+	t.ListenersMtx.Unlock()
 
 	// also remove the listener from the init packages.
 	t.EventsMtx.Lock()
@@ -957,6 +977,9 @@ func (t *Teamserver) FindSystemPackages() bool {
 }
 
 func (t *Teamserver) EndpointAdd(endpoint *Endpoint) bool {
+	t.EndpointsMtx.Lock()
+	defer t.EndpointsMtx.Unlock()
+
 	for _, e := range t.Endpoints {
 		if e.Endpoint == endpoint.Endpoint {
 			return false
@@ -969,6 +992,9 @@ func (t *Teamserver) EndpointAdd(endpoint *Endpoint) bool {
 }
 
 func (t *Teamserver) EndpointRemove(endpoint string) []*Endpoint {
+	t.EndpointsMtx.Lock()
+	defer t.EndpointsMtx.Unlock()
+
 	for i := range t.Endpoints {
 		if t.Endpoints[i].Endpoint == endpoint {
 			t.Endpoints = append(t.Endpoints[:i], t.Endpoints[i+1:]...)
